@@ -242,7 +242,7 @@ A(V("c02-hhea-advance-signed", ["C02", "C04"], "ttLib/tables/_h_h_e_a.py", "adva
 A(V("c16-os2-save-after-pack", "C16", "ttLib/tables/O_S_2f_2.py", "        self.panose = sstruct.pack(panoseFormat, self.panose)\n", "        self.panose = sstruct.pack(panoseFormat, self.panose)\n        panose = self.panose\n", "SAVE-REST"))
 A(V("c16-time-localtime", "C16", "misc/timeTools.py", "return asctime(time.gmtime(max(0, value + epoch_diff)))", "return asctime(time.localtime(max(0, value + epoch_diff)))", "F13z"))
 A(V("c16-time-mktime", "C16", "misc/timeTools.py", "    return int(t.timestamp()) - epoch_diff", "    return int(time.mktime(t.timetuple())) - epoch_diff", "F13z"))
-A(V("c07-lost-sort", "C07", "subset/__init__.py", "        usedIndices = sorted(usedIndices)\n", "        usedIndices = sorted(usedIndices)\n        usedIndices = None\n", None, expect=0, count=2))
+A(V("c07-lost-sort", "C07", "subset/__init__.py", "        usedIndices = sorted(usedIndices)\n", "        usedIndices = sorted(usedIndices)\n        usedIndices = None\n", "LOST-UPD", count=2))
 A(V("c17-skip-empty-cff", "C17", "ttLib/scaleUpem.py", "                if op == \"vsindex\":\n                    continue", "                if op == \"vsindex\" or not args:\n                    continue", "SKIP"))
 A(V("c11-ctx-end-lookup", "C11", "feaLib/builder.py", "        self.cur_lookup_name_ = None\n        self.cur_lookup_ = None\n", "        self.cur_lookup_name_ = None\n", "FEA-ctx", count=1))
 A(V("c11-ctx-conditional-reset", "C11", "feaLib/builder.py", "        assert lookup_name in self.named_lookups_, lookup_name\n        self.cur_lookup_ = None\n", "        assert lookup_name in self.named_lookups_, lookup_name\n        if self.cur_lookup_name_:\n            self.cur_lookup_ = None\n", "FEA-ctx"))
@@ -352,3 +352,6 @@ A(V("c15-sbs-wrap", "C15", "misc/iftSparseBitSet.py", "            if self.subIn
 A(V("c15-sstruct-iter-sorted", "C15", "misc/sstruct.py", "    for i, name in enumerate(names.keys()):", "    for i, name in enumerate(sorted(names.keys())):", "F22-sstruct"))
 A(V("c15-sstruct-fix-bits", "C15", "misc/sstruct.py", "            value = fi2fl(value, fixes[name])", "            value = fi2fl(value, fixes[name] + 1)", "F22-sstruct"))
 A(V("c03-src-cwd", "C03", "misc/xmlReader.py", "                dirname = os.path.dirname(self.file.name)\n", "                dirname = os.getcwd()\n", "F7i"))
+A(V("c07-seac-from-front", ["C07", "C12"], "subset/cff.py", "adx, ady, bchar, achar = args[-4:]", "adx, ady, bchar, achar = args[:4]", "T2-WIDTH"))
+A(V("c03-none-in-ttfont", "C03", "ttLib/tables/_c_m_a_p.py", '_hasGlyphNamedNone = "None" in ttFont.getGlyphOrder()', '_hasGlyphNamedNone = "None" in ttFont', "TAG-LIT"))
+A(V("c10-search-gives-up", "C10", "varLib/merger.py", "                if rec.SecondGlyph == secondGlyph:\n                    return rec\n            continue\n", "                if rec.SecondGlyph == secondGlyph:\n                    return rec\n            return None\n", "EARLY-NEG"))
